@@ -38,6 +38,7 @@ type c09Plan struct {
 	QueueFull bool
 	Stream    string // "valid", "fewer", "more", "garbage", "truncated", "trailing", "nodial"
 	Second    bool   // a second offer of the same keys once they are observably in flight
+	ThirdV0   bool   // the third party speaks version 0
 	Third     bool   // then a third party's overlapping offer whose transfer ends at once, then the keys are offered again
 }
 
@@ -83,7 +84,7 @@ func genC09Rest(t *rapid.T, va, vb []byte, keys []offerKey) c09Plan {
 		Limit: rapid.SampledFrom([]int{50, 50, 50, 2, 1, -1}).Draw(t, "limit"), PreTaken: rapid.SampledFrom([]int{0, 0, 0, 1, 2}).Draw(t, "pre"),
 		QueueCap: rapid.SampledFrom([]int{1, 2, 50}).Draw(t, "qcap"), QueueFull: rapid.IntRange(0, 7).Draw(t, "qfull") == 0,
 		Stream: rapid.SampledFrom([]string{"valid", "valid", "valid", "fewer", "more", "garbage", "truncated", "trailing", "nodial"}).Draw(t, "stream"),
-		Second: rapid.IntRange(0, 2).Draw(t, "second") == 0, Third: rapid.Bool().Draw(t, "third")}
+		Second: rapid.IntRange(0, 2).Draw(t, "second") == 0, Third: rapid.Bool().Draw(t, "third"), ThirdV0: rapid.Bool().Draw(t, "thirdV0")}
 }
 
 func offerKeyBytes(seed uint32, i int) []byte {
@@ -326,18 +327,26 @@ func runC09(p c09Plan, c *stats.Case) error {
 				fresh := offerKeyBytes(0xF00D, 999)
 				keys3 := append(append([][]byte{}, keys...), fresh)
 				free3, _ := b.Utp.VerifFreeSlots()
-				a3, err3 := pp.NewLive(hub, pp.LiveOpts{KeyIdx: 74, Port: nextPort(), Versions: p.VA, UtpFast: true})
+				// the third party may speak version 0 (which knows no "already being received" verdict and may take
+				// the same keys again): what it does must not make the node forget that the first, version-1,
+				// transfer is still receiving them
+				v3, ver3 := p.VA, ver
+				if p.ThirdV0 && bytes.IndexByte(p.VB, 0) >= 0 {
+					v3, ver3 = []byte{0}, 0
+					c.Class("third-party-speaks-version-0")
+				}
+				a3, err3 := pp.NewLive(hub, pp.LiveOpts{KeyIdx: 74, Port: nextPort(), Versions: v3, UtpFast: true})
 				if err3 == nil && free3 > 0 && len(keys3) <= 64 {
 					defer a3.Stop()
 					if _, perr := a3.P.VerifPing(b.Node()); perr == nil {
 						reply3, herr3 := b.P.VerifHandleOffer(a3.Node(), &net.UDPAddr{IP: net.IP{127, 0, 0, 1}, Port: a3.Opts.Port}, &portalwire.Offer{ContentKeys: keys3})
 						if herr3 == nil {
-							cid3, acc3, _, perr3 := parseAccept(reply3, ver, len(keys3))
+							cid3, acc3, _, perr3 := parseAccept(reply3, ver3, len(keys3))
 							if perr3 != nil {
 								return fmt.Errorf("third offer: %v", perr3)
 							}
 							for i := range keys {
-								if acc3[i] && accepted[i] {
+								if ver3 == 1 && acc3[i] && accepted[i] {
 									return fmt.Errorf("third offer (version 1): key %d accepted again while its first transfer is in progress", i)
 								}
 							}
@@ -362,6 +371,9 @@ func runC09(p c09Plan, c *stats.Case) error {
 												}
 											}
 											c.NT("offer-after-overlapping-offer-ended")
+											if ver3 == 0 {
+												c.NT("offer-after-overlapping-version-0-offer-ended")
+											}
 										}
 									}
 								}
